@@ -194,13 +194,22 @@ namespace lang
         template <class... Args>
         constexpr void emplace(pointer const pos, Args&&... args)
         {
-            auto key = std::distance(begin(), pos);
+            size_type key = std::distance(begin(), pos);
 
             if (size_ >= capacity_)
                 raise("No capacity left!");
 
-            replace(data_[key], value_type(args...));
+            if (key > size_)
+                raise("Key larger than size!");
+
+            // append the new element, then move it in front of the element at pos
+            replace(data_[size_], value_type(std::forward<Args>(args)...));
             ++size_;
+
+            for (size_type i = size_ - 1; i > key; --i)
+            {
+                std::swap(data_[i], data_[i - 1]);
+            }
         }
 
         template <class... Args>
